@@ -258,15 +258,19 @@ pub fn run_property<P: Property>(p: &P, args: &Args) -> i32 {
         out.wall_s,
         violations.len()
     );
+    if !violations.is_empty() {
+        return 1;
+    }
     if out.stats.nontrivial.len() < 2 {
         println!("INCONCLUSIVE: fewer than 2 non-trivial cases");
         return 2;
     }
-    if violations.is_empty() {
-        0
-    } else {
-        1
+    let rejected = out.stats.classes.get("rejected").cloned().unwrap_or(0);
+    if rejected * 5 > out.stats.evaluations {
+        println!("INCONCLUSIVE: {} of {} generated cases were rejected by the compiler/loader (generator problem)", rejected, out.stats.evaluations);
+        return 2;
     }
+    0
 }
 
 pub fn truncate(s: &str, n: usize) -> String {
